@@ -560,6 +560,49 @@ def run_rpc_replay(seed: int, acc) -> int:
     return n
 
 
+PROTO_SPELLINGS = ["Kerberos", "NTLM", "Negotiate", "KERBEROS", "krb5", "kerberos ", " ntlm", "ntlm\n", "", "none", "negotiate-ex"]
+
+
+def run_protocol_names(seed: int, acc) -> int:
+    """auth_protocol values other than the three documented ones: whatever the library does with them, it must not fall back to an
+    unauthenticated connection - the GetKey request never leaves unsealed and a cleartext reply with the attacker's envelope is never used"""
+    import dpapi_ng
+
+    st = setup(seed)
+    n = 0
+    for name in PROTO_SPELLINGS:
+        for op in ("protect", "unprotect"):
+            for api in ("sync", "async"):
+                dc = RogueDC([st["rk"]], now=NOW)
+                dc.rogue_mode, dc.rogue_st, dc.rogue_op, dc.rogue_saw_request = "no-trailer", st, op, None
+                case = ["protocol-name", name, op, api]
+                kw = dict(server="dc", username="u", password="p", auth_protocol=name)
+                with transport.network(dc), secctx.scripted_client(lambda u, p, **k: secctx.ScriptedContext([b"C0"], 16, complete_after=1)):
+                    try:
+                        if op == "unprotect":
+                            f = dpapi_ng.ncrypt_unprotect_secret if api == "sync" else dpapi_ng.async_ncrypt_unprotect_secret
+                            r = f(st["blob"], **kw)
+                        else:
+                            f = dpapi_ng.ncrypt_protect_secret if api == "sync" else dpapi_ng.async_ncrypt_protect_secret
+                            r = f(PT, SID, **kw)
+                        v = r if api == "sync" else vloop.run(r)
+                        status = "ok"
+                    except (transport.BlocksForever, transport.Spin, vloop.Deadlock) as e:
+                        status, v = "blocked", repr(e)
+                    except Exception as e:  # noqa: BLE001
+                        status, v = "exc", type(e).__name__
+                n += 1
+                acc.nt(tuple(case))
+                req = dc.rogue_saw_request
+                if req is not None and (req["auth"] is None or req["auth"]["level"] != 6):
+                    acc.violate("protocol-name.request-sent-unsealed", case, {"auth": None if req["auth"] is None else req["auth"]["level"]})
+                if status == "ok":
+                    acc.violate("protocol-name.cleartext-reply-used", case, {"returned": repr(bytes(v))[:60]})
+                else:
+                    acc.outcome("protocol-name-rejected")
+    return n
+
+
 def run_overlap(seed: int, acc) -> int:
     """two async calls in flight at once on separate connections (virtual loop, replies held back): the GetKey reply of the first call is
     replaced by an unsealed one with the attacker's envelope while the other call runs - every interleaving with <= 2 deviations from
@@ -821,7 +864,7 @@ def run_rogue(seed: int, op: str, api: str, mode: str, sec: str, acc) -> None:
 
 
 def shards(tier: str, seed: int):
-    out = [["rogue"], ["stub-shapes"], ["overlap"], ["rpc-replay"]]
+    out = [["rogue"], ["stub-shapes"], ["overlap"], ["rpc-replay"], ["protocol-names"]]
     for api in ("sync", "async"):
         for sg in (True, False):
             for part in range(4):
@@ -838,6 +881,10 @@ def shards(tier: str, seed: int):
 
 def run_shard(shard, tier, seed, acc) -> None:
     worker_init()
+    if shard[0] == "protocol-names":
+        acc.ev(run_protocol_names(seed, acc))
+        acc.sample({"auth_protocol spellings": PROTO_SPELLINGS})
+        return
     if shard[0] == "rpc-replay":
         acc.ev(run_rpc_replay(seed, acc))
         acc.sample({"several sealed requests on one connection": "a later reply replaced by the recorded reply to an earlier one"})
@@ -914,6 +961,14 @@ def replay(case, seed, acc) -> None:
     acc.ev()
     if case[0] == "rogue":
         run_rogue(seed, case[1], case[2], case[3], case[4], acc)
+        return
+    if case[0] == "protocol-name":
+        run_protocol_names(seed, acc)
+        for k in list(acc.violations):
+            acc.violations[k] = [e for e in acc.violations[k] if e["case"] == case]
+            if not acc.violations[k]:
+                del acc.violations[k]
+        acc.violation_count = sum(len(v) for v in acc.violations.values())
         return
     if case[0] == "rpc-replay":
         run_rpc_replay(seed, acc)
